@@ -195,6 +195,9 @@ def stmts_to_expr(tr, stmts):
     k = s.get('kind')
     if k == 'CompoundStmt':
         return stmts_to_expr(tr, kids(s) + rest)
+    if k == 'NullStmt':
+        # `;` left by a macro that expands to nothing (the guarded verification marker EVENTPP_VERIF_POINT)
+        return stmts_to_expr(tr, rest)
     if k == 'ReturnStmt':
         ks = kids(s)
         if len(ks) != 1:
